@@ -25,6 +25,8 @@
 -/
 import RumaModel.Lemmas.PowerLevelsChange
 import RumaModel.Lemmas.PowerLevelsPush
+import RumaModel.Lemmas.PowerLevelsRedacted
+import RumaModel.Spec.RedactionRules
 import RumaModel.Generated.C20
 namespace Ruma.Props.C20
 open Ruma Ruma.Auth Ruma.Ident Ruma.PowerLevels
@@ -537,6 +539,64 @@ theorem userCanSendStateStatement_false : ¬ UserCanSendStateStatement := by
     rw [hp, ha] at this
     exact absurd this (by decide)
 
+/-! ## Part 7 — a room whose power-levels event has been redacted
+
+A client reaches `RoomPowerLevels` from a redacted power-levels event through
+`RedactedRoomPowerLevelsEventContent` (`From<…> for RoomPowerLevels`), or by redacting the typed
+content itself (`RedactContent::redact`). The authorization rules read the redacted JSON. All
+`_iff_auth` theorems above are stated for every content, hence also for a redacted one read as an
+ordinary content; the theorems here show that the two other routes give exactly those levels, for
+every redaction rule set (every room version) and every original content. -/
+
+/-- `redact_content_in_place(_, rules, "m.room.power_levels")` cannot fail and keeps exactly the entries
+whose key the rules retain (the eight level fields, and `invite` iff
+`keep_room_power_levels_invite`); in particular it never keeps `notifications`. -/
+theorem redact_powerLevels_content (r : Redact.Rules) (c : Obj) :
+    Redact.redactContent r (bs "m.room.power_levels") c = .ok (redactedPL r c)
+    ∧ Obj.get (redactedPL r c) (bs "notifications") = none := by
+  refine ⟨redactContent_powerLevels r c, ?_⟩
+  rw [get_redactedPL]
+  have : Redact.powerLevelsKey r (bs "notifications") = false := by
+    cases r; simp [Redact.powerLevelsKey, Redact.powerLevelsAlwaysKeys, bs]
+  simp [this]
+
+/-- **The redacted event gives the helper the levels the rules read.** For every redaction rule set
+and every content: the redacted JSON read as `RedactedRoomPowerLevelsEventContent` and read as an
+ordinary `RoomPowerLevelsEventContent` (the route every `_iff_auth` theorem speaks about) give the same
+`RoomPowerLevels`, and fail together. -/
+theorem redacted_event_levels_eq (r : Redact.Rules) (c : Obj) :
+    ofRedactedContentR (redactedPL r c) = ofContentR (redactedPL r c) :=
+  ofRedactedContentR_eq_of_no_notifications _ (redact_powerLevels_content r c).2
+
+/-- Hence in a room whose current power-levels event is the redacted form of any content, what a
+client gets from the redacted event is `roomLevels f`, the levels of all theorems of parts 1–6. -/
+theorem roomLevels_of_redacted_event (r : Redact.Rules) (f : Fetch) (c : Obj)
+    (h : plContent f = some (redactedPL r c)) :
+    roomLevels f = ofRedactedContent (redactedPL r c) := by
+  simp only [roomLevels, h, Option.bind_some, ofContent, ofRedactedContent, redacted_event_levels_eq]
+
+/-- **Typed redaction agrees with the redaction algorithm.** If the original content deserializes to
+levels `l`, the redacted JSON deserializes (by either type) to `RedactContent::redact` of `l`: `invite`
+kept iff the rules keep it (room version 11 on), else 0; `notifications` back to its default; every
+other level untouched. -/
+theorem redacted_event_levels_typed (r : Redact.Rules) (c : Obj) (l : Levels)
+    (h : ofContentR c = .ok l) :
+    ofRedactedContentR (redactedPL r c) = .ok (redactLevels r.keepPowerLevelsInvite l) := by
+  rw [redacted_event_levels_eq]; exact ofContentR_redactedPL r c l h
+
+/-- Non-vacuity, and the version split the statement rests on: the same content (invite 60,
+notifications.room 70) redacted under the rules of room version 10 loses `invite`, under those of
+version 11 keeps it; `notifications` is gone in both. -/
+example :
+    let c : Obj := [(bs "ban", .int 40), (bs "invite", .int 60),
+                    (bs "notifications", .obj [(bs "room", .int 70)]), (bs "users_default", .int 5)]
+    ((ofRedactedContent (redactedPL (Spec.Redaction.rulesOf 10) c)).map
+        (fun l => (l.ban, l.invite, l.notificationsRoom, l.usersDefault)) = some (40, 0, 50, 5))
+    ∧ ((ofRedactedContent (redactedPL (Spec.Redaction.rulesOf 11) c)).map
+        (fun l => (l.ban, l.invite, l.notificationsRoom, l.usersDefault)) = some (40, 60, 50, 5))
+    ∧ ((ofContent c).map (fun l => (l.invite, l.notificationsRoom)) = some (60, 70)) := by
+  decide
+
 /-! ## Axiom audit (one line per property theorem) -/
 
 #print axioms helper_reads_what_rules_read
@@ -559,5 +619,9 @@ theorem userCanSendStateStatement_false : ¬ UserCanSendStateStatement := by
 #print axioms sendState_thirdPartyInvite_witness
 #print axioms sendState_aliases_witness
 #print axioms userCanSendStateStatement_false
+#print axioms redact_powerLevels_content
+#print axioms redacted_event_levels_eq
+#print axioms roomLevels_of_redacted_event
+#print axioms redacted_event_levels_typed
 
 end Ruma.Props.C20
